@@ -23,6 +23,19 @@ type ValCase struct {
 }
 
 func (vc *ValCase) value(c *Cfg) any {
+	if vc.Family == "result-typed" {
+		switch vc.Zoo {
+		case "result-of-int":
+			return flyt.NewResult(42)
+		case "result-of-slice":
+			return flyt.NewResult([]int{1})
+		case "error-result":
+			return flyt.NewErrorResult(fmt.Errorf("e"))
+		case "ptr-result":
+			return &flyt.Result{}
+		}
+		return flyt.Result{}
+	}
 	if vc.Family == "large-slice" {
 		if strings.Contains(vc.Type, "int32") {
 			a := make([]int32, vc.Gen)
@@ -537,6 +550,25 @@ func runC15(c *Cfg) {
 	}
 	for k := range kindsSeen {
 		r.Count("zoo.kind."+k, 1)
+	}
+	// values whose dynamic type is flyt.Result itself: an ordinary struct as far as the accessors are concerned
+	for _, rv := range []zoo.Named{{Name: "result-of-int", V: flyt.NewResult(42)}, {Name: "result-of-slice", V: flyt.NewResult([]int{1})}, {Name: "error-result", V: flyt.NewErrorResult(fmt.Errorf("e"))}, {Name: "zero-result", V: flyt.Result{}}, {Name: "ptr-result", V: &flyt.Result{}}} {
+		fs, _ := checkAccessors(rv.V)
+		r.Eval()
+		for _, f := range fs {
+			r.Violate("C15", "C15:"+f.key, "(value of type flyt.Result) "+f.detail, ValCase{Family: "result-typed", Zoo: rv.Name, Type: fmt.Sprintf("%T", rv.V)})
+		}
+		// Set and Merge store the very same value
+		st := flyt.NewSharedStore()
+		st.Set("a", rv.V)
+		st.Merge(map[string]any{"b": rv.V})
+		ga, _ := st.Get("a")
+		gb, _ := st.Get("b")
+		if !zoo.Same(ga, rv.V) || !zoo.Same(gb, rv.V) {
+			r.Violate("C15", "C15:result-typed-value-altered", fmt.Sprintf("a %T stored with Set / Merge comes back as %s / %s", rv.V, zoo.Describe(ga), zoo.Describe(gb)), ValCase{Family: "result-typed", Zoo: rv.Name})
+		}
+		r.Count("result_typed.values", 1)
+		r.Nontrivial("result-typed:" + rv.Name)
 	}
 	// large slices of types without a fast path in ToSlice (size thresholds, chunking)
 	for _, n := range []int{8193, 20003, 65537} {
